@@ -21,7 +21,7 @@ LIB_FILES = ['cJSON.c', 'cJSON.h', 'cJSON_Utils.c', 'cJSON_Utils.h']
 LIB_DEFS = ['-DENABLE_LOCALES', '-DCJSON_API_VISIBILITY', '-DCJSON_EXPORT_SYMBOLS']
 CBMC_FLAGS = ['--unwinding-assertions', '--no-malloc-may-fail', '--drop-unused-functions',
               '--signed-overflow-check', '--conversion-check', '--undefined-shift-check',
-              '--json-ui', '--trace', '--object-bits', '10']
+              '--json-ui', '--trace', '--object-bits', '10', '--verbosity', '8']
 
 
 def sh(cmd, timeout=None, cwd=None, mem_gb=None, env=None):
@@ -258,9 +258,18 @@ def run_query(sc, q, args):
                 results = m['result']
             if m.get('messageType') == 'STATUS-MESSAGE':
                 t = m.get('messageText', '')
-                mm = re.search(r'Runtime decision procedure: ([0-9.]+)s', t) or re.search(r'Runtime Solver: ([0-9.]+)s', t)
+                mm = re.search(r'Runtime decision procedure: ([0-9.e+-]+)s', t)
                 if mm:
                     res['solver_s'] += float(mm.group(1))
+                mm = re.search(r'Runtime Symex: ([0-9.e+-]+)s', t)
+                if mm:
+                    res['symex_s'] = res.get('symex_s', 0.0) + float(mm.group(1))
+                mm = re.search(r'size of program expression: (\d+) steps', t)
+                if mm:
+                    res['steps'] = int(mm.group(1))
+                mm = re.search(r'Generated (\d+) VCC\(s\), (\d+) remaining', t)
+                if mm:
+                    res['vccs'] = int(mm.group(1)); res['vccs_after_simplification'] = int(mm.group(2))
                 mm = re.search(r'(\d+) variables, (\d+) clauses', t)
                 if mm:
                     res['sat_vars'] = max(res.get('sat_vars', 0), int(mm.group(1)))
@@ -437,9 +446,9 @@ def cmd_check(args):
     nontrivial = sum(1 for r in results if r['status'] in ('OK', 'VIOLATION') and r['witness_ok'] > 0 and r.get('nonwitness_obligations', 0) > 0)
     samples = []
     for r in results[:40]:
-        samples.append({'query': r['id'], 'harness': r['src'], 'defs': r['defs'], 'unwind': r['unwind'], 'unwindset': r['unwindset'],
+        samples.append({'query': r['id'], 'harness': r['src'], 'defs': r['defs'], 'unwind': r['unwind'], 'unwindset': [e for e in r['unwindset'] if not e.startswith(('vf_str', 'vf_mem', 'main.', 'vf_sprintf', 'body.'))],
                         'status': r['status'], 'obligations': r['obligations'], 'witness_input': r['sample'],
-                        'solver_s': round(r['solver_s'], 2), 'wall_s': r['wall_s'], 'notes': r['notes'][:2]})
+                        'solver_s': round(r['solver_s'], 2), 'symex_s': round(r.get('symex_s', 0.0), 2), 'steps': r.get('steps'), 'vccs': r.get('vccs'), 'sat_vars': r.get('sat_vars'), 'sat_clauses': r.get('sat_clauses'), 'wall_s': r['wall_s'], 'notes': r['notes'][:2]})
     ev = {
         'property_id': pid, 'tier': tier, 'seed': seed, 'level': meta.get('level', 'model_checking'),
         'coverage': {
@@ -457,6 +466,8 @@ def cmd_check(args):
             'outside_bounds': meta.get('outside', ''),
             'stubs': meta.get('stubs', []),
             'solver_s': round(sum(r['solver_s'] for r in results), 2),
+            'symex_s': round(sum(r.get('symex_s', 0.0) for r in results), 2),
+            'vccs': sum(r.get('vccs') or 0 for r in results),
             'sat_vars_max': max([r.get('sat_vars', 0) for r in results] or [0]),
             'source_hashes': sc.hashes,
             'unconfirmable_ub': sorted(set(sum([r.get('unconfirmable_ub', []) for r in results], []))),
